@@ -787,9 +787,41 @@ struct StackOutcome {
     faultable: bool,
 }
 
+thread_local! {
+    /// 0 = one value per writer; 1 / 2 = two values wanted (two calls / one reused Serializer); 3 = two values written
+    static TWICE: std::cell::Cell<u8> = const { std::cell::Cell::new(0) };
+}
+
 fn ser_to<W: sonic_rs::writer::WriteExt>(w: W, g: &G, pretty: bool) -> Result<(), String> {
-    let r = if pretty { sonic_rs::to_writer_pretty(w, g) } else { sonic_rs::to_writer(w, g) };
-    r.map_err(|e| e.to_string())
+    match TWICE.with(|c| c.get()) {
+        1 => {
+            // the same writer takes a second value after the first (no separator is written by the library)
+            let mut w = w;
+            let r = if pretty { sonic_rs::to_writer_pretty(&mut w, g) } else { sonic_rs::to_writer(&mut w, g) };
+            r.map_err(|e| e.to_string())?;
+            TWICE.with(|c| c.set(3));
+            let r = if pretty { sonic_rs::to_writer_pretty(&mut w, g) } else { sonic_rs::to_writer(&mut w, g) };
+            r.map_err(|e| e.to_string())
+        }
+        2 => {
+            // one Serializer, reused for a second value
+            if pretty {
+                let mut ser = sonic_rs::Serializer::with_formatter(w, sonic_rs::format::PrettyFormatter::default());
+                g.serialize(&mut ser).map_err(|e| e.to_string())?;
+                TWICE.with(|c| c.set(3));
+                g.serialize(&mut ser).map_err(|e| e.to_string())
+            } else {
+                let mut ser = sonic_rs::Serializer::new(w);
+                g.serialize(&mut ser).map_err(|e| e.to_string())?;
+                TWICE.with(|c| c.set(3));
+                g.serialize(&mut ser).map_err(|e| e.to_string())
+            }
+        }
+        _ => {
+            let r = if pretty { sonic_rs::to_writer_pretty(w, g) } else { sonic_rs::to_writer(w, g) };
+            r.map_err(|e| e.to_string())
+        }
+    }
 }
 
 fn run_stack(stack: u32, g: &G, pretty: bool, plan: &FaultPlan, guard_fail: (Option<usize>, Option<usize>), cap: usize) -> Result<StackOutcome, Violation> {
@@ -1034,10 +1066,13 @@ pub fn run() -> SimResult {
             bytes
         }
     };
-    LAST_REF_LEN.store(ref_out.len(), std::sync::atomic::Ordering::SeqCst);
+    // one run in six sends a second value (the same one) through the same writer: state a writer or a
+    // serializer keeps between values must not leak into the next one
+    let twice = if chance(1, 6) { 1 + draw(2) as u8 } else { 0 };
+    LAST_REF_LEN.store(ref_out.len() * if twice > 0 { 2 } else { 1 }, std::sync::atomic::Ordering::SeqCst);
 
     // (2) the drawn writer stack under the drawn fault plan
-    let l = ref_out.len();
+    let l = ref_out.len() * if twice > 0 { 2 } else { 1 };
     let kinds = [io::ErrorKind::Other, io::ErrorKind::BrokenPipe, io::ErrorKind::WouldBlock];
     let mut guard_fail = (None, None);
     let permanent = match fkind {
@@ -1057,7 +1092,17 @@ pub fn run() -> SimResult {
     };
     let plan = FaultPlan { permanent, short_write_1_in: short, eintr_1_in: eintr };
     tr!("plan {:?} short=1/{} eintr=1/{} guard_fail={:?} cap={}", plan.permanent, short, eintr, guard_fail, cap);
-    let o = run_stack(stack, &g, pretty, &plan, guard_fail, cap)?;
+    TWICE.with(|c| c.set(twice));
+    let o = run_stack(stack, &g, pretty, &plan, guard_fail, cap);
+    let wrote_two = TWICE.with(|c| c.replace(0)) == 3;
+    let o = o?;
+    let ref_out = if wrote_two {
+        tr!("two values through one writer (mode {})", twice);
+        [ref_out.as_slice(), ref_out.as_slice()].concat()
+    } else {
+        ref_out
+    };
+    let l = ref_out.len();
     if let Some(pv) = &o.protocol_violation {
         return Err(Violation::new("ser/writer-protocol", format!("{}: {}", o.name, pv)));
     }
